@@ -2,8 +2,10 @@
 //!
 //! One case = one byte string, served to the REAL code under every combination
 //! of content-type header x scheme (file:, https:) x media (ts, js, json) and
-//! through two routes: the public `deno_graph::parse_module`, and a real graph
-//! build whose loader serves the bytes + headers.  Observed per combination:
+//! through three routes: the public `deno_graph::parse_module`, a real graph
+//! build whose loader serves the bytes + headers, and (https only) a real build
+//! of a JSR package whose version manifest carries the module info, so that the
+//! builder fills the content in afterwards (deferred content load).  Observed per combination:
 //! error vs module, stored text bytes, decoded kind, try_get_original_bytes(),
 //! size() and the serialised `size`.  The observation is also part of the model
 //! input: the extracted decision procedure (C20_holdsb_correct) judges it.
@@ -155,9 +157,17 @@ impl ModuleAnalyzer for Analyzer {
 
 struct MapLoader {
   map: HashMap<String, (Arc<[u8]>, Option<HashMap<String, String>>)>,
+  /// JSR package files are not in the cache (cache-only probes miss)
+  jsr_uncached: bool,
 }
+const JSR_PKG: &str = "https://jsr.io/@s/p/1.0.0/";
 impl Loader for MapLoader {
-  fn load(&self, specifier: &ModuleSpecifier, _options: LoadOptions) -> LoadFuture {
+  fn load(&self, specifier: &ModuleSpecifier, options: LoadOptions) -> LoadFuture {
+    // package files are "not in the cache": the builder then takes the module info from the
+    // version manifest and fills the content in later (deferred content load)
+    if self.jsr_uncached && options.cache_setting == CacheSetting::Only && specifier.as_str().starts_with(JSR_PKG) {
+      return async move { Ok(None) }.boxed_local();
+    }
     let r = match self.map.get(specifier.as_str()) {
       Some((content, headers)) => Ok(Some(LoadResponse::Module {
         content: content.clone(),
@@ -415,7 +425,7 @@ fn gen_bytes(rng: &mut Rng, tier: Tier) -> (Vec<u8>, &'static str) {
 }
 
 pub struct Plan {
-  pub n_base: u64,
+  pub n_base: u64, // cases of the base enumeration = strings x 3 media
   pub n_ext: u64,
   pub n_rand: u64,
   pub base_len: usize,
@@ -423,10 +433,10 @@ pub struct Plan {
 }
 
 pub fn plan(tier: Tier) -> Plan {
-  let (base_len, ext_len, n_rand) = if tier == Tier::Quick { (3, 2, 3000) } else { (4, 3, 100_000) };
+  let (base_len, ext_len, n_rand) = if tier == Tier::Quick { (3, 2, 6000) } else { (4, 3, 90_000) };
   Plan {
-    n_base: count_upto(ALPHA_BASE.len(), base_len),
-    n_ext: count_upto(ALPHA_EXT.len(), ext_len),
+    n_base: 3 * count_upto(ALPHA_BASE.len(), base_len),
+    n_ext: 3 * count_upto(ALPHA_EXT.len(), ext_len),
     n_rand,
     base_len,
     ext_len,
@@ -437,20 +447,32 @@ pub fn gen_case(seed: u64, k: u64, tier: Tier) -> Case {
   let p = plan(tier);
   let mut rng = Rng::for_case(seed, k);
   // ---- the byte string and the header set of this case
+  // one case = (byte string, media); in the two enumerations case k is string k / 3 with media k % 3
+  let the_media = (k % 3) as usize;
   let (bytes, stream, header_tpls): (Vec<u8>, &str, Vec<&str>) = if k < p.n_base {
-    (nth_string(&ALPHA_BASE, k), "exhaustive_base", CORE_HEADERS.to_vec())
+    (nth_string(&ALPHA_BASE, k / 3), "exhaustive_base", CORE_HEADERS.to_vec())
   } else if k < p.n_base + p.n_ext {
+    let b = nth_string(&ALPHA_EXT, (k - p.n_base) / 3);
     let mut h = CORE_HEADERS.to_vec();
-    h.extend(EXTRA_HEADERS);
+    if b.len() <= 1 {
+      // every header shape
+      h.extend(EXTRA_HEADERS);
+    } else {
+      // a rotating window of 16 of the extra header shapes
+      let start = (((k - p.n_base) / 3) as usize * 7) % EXTRA_HEADERS.len();
+      for j in 0..16 {
+        h.push(EXTRA_HEADERS[(start + j) % EXTRA_HEADERS.len()]);
+      }
+    }
     h.push(CSS_HEADER);
-    (nth_string(&ALPHA_EXT, k - p.n_base), "exhaustive_ext", h)
+    (b, "exhaustive_ext", h)
   } else {
     let (b, name) = gen_bytes(&mut rng, tier);
     let mut all = CORE_HEADERS.to_vec();
     all.extend(EXTRA_HEADERS);
     all.push(CSS_HEADER);
     let mut h = vec![];
-    for _ in 0..8 {
+    for _ in 0..6 {
       let t = *rng.pick(&all);
       if !h.contains(&t) {
         h.push(t);
@@ -466,6 +488,9 @@ pub fn gen_case(seed: u64, k: u64, tier: Tier) -> Case {
   let mut table: Vec<Sx> = vec![];
   let mut direct = vec![];
   for (mi, (ext, mpart)) in MEDIA.iter().enumerate() {
+    if mi != the_media {
+      continue;
+    }
     for hi in 0..=header_tpls.len() {
       let value: Option<String> = if hi == 0 { None } else { Some(header_tpls[hi - 1].replace('M', mpart)) };
       let hidx = match &value {
@@ -496,9 +521,17 @@ pub fn gen_case(seed: u64, k: u64, tier: Tier) -> Case {
     }
   }
 
+  // ---- ModuleTextSource::new_unknown (C20_new_unknown): never offers original bytes
+  if let Ok(t) = std::str::from_utf8(&bytes) {
+    let src = ModuleTextSource::new_unknown(Arc::from(t));
+    if src.try_get_original_bytes().is_some() || src.text.as_bytes() != &bytes[..] {
+      direct.push("ModuleTextSource::new_unknown offers original bytes or changed its text".to_string());
+    }
+  }
+
   // ---- route 1: one real graph build serving every combination
   let mut root_src = String::new();
-  let mut loader = MapLoader { map: HashMap::new() };
+  let mut loader = MapLoader { map: HashMap::new(), jsr_uncached: true };
   for (i, c) in combos.iter().enumerate() {
     let url = ModuleSpecifier::parse(&c.spec).unwrap();
     let (mt, _) = resolve_media_type_and_charset_from_headers(&url, c.headers.as_ref());
@@ -524,7 +557,69 @@ pub fn gen_case(seed: u64, k: u64, tier: Tier) -> Case {
     direct.push("harness: root module of the build route did not load".to_string());
   }
 
-  // ---- observe both routes
+  // ---- route 2: JSR package whose version manifest carries the module info, so that the content
+  // of every module is filled in afterwards (handle_jsr_registry_pending_content_loads)
+  let mut jroot_src = String::new();
+  let mut jloader = MapLoader { map: HashMap::new(), jsr_uncached: true };
+  let mut exports = serde_json::Map::new();
+  let mut mg2 = serde_json::Map::new();
+  for (i, c) in combos.iter().enumerate() {
+    if c.is_file {
+      continue;
+    }
+    let file = c.spec.rsplit('/').next().unwrap().to_string(); // c<mi>_<hi>.<ext>
+    let name = file.split('.').next().unwrap().to_string();
+    exports.insert(format!("./{}", name), serde_json::json!(format!("./{}", file)));
+    mg2.insert(format!("/{}", file), serde_json::json!({}));
+    if file.ends_with(".json") {
+      jroot_src.push_str(&format!("import j{} from \"jsr:@s/p@1.0.0/{}\" with {{ type: \"json\" }};\n", i, name));
+    } else {
+      jroot_src.push_str(&format!("import \"jsr:@s/p@1.0.0/{}\";\n", name));
+    }
+    jloader.map.insert(format!("{}{}", JSR_PKG, file), (content.clone(), c.headers.clone()));
+  }
+  jloader.map.insert(
+    "https://jsr.io/@s/p/meta.json".to_string(),
+    (Arc::from(serde_json::json!({"versions": {"1.0.0": {}}}).to_string().into_bytes()), None),
+  );
+  jloader.map.insert(
+    "https://jsr.io/@s/p/1.0.0_meta.json".to_string(),
+    (Arc::from(serde_json::json!({"exports": exports, "manifest": {}, "moduleGraph2": mg2}).to_string().into_bytes()), None),
+  );
+  let jroot = "file:///p/jroot.ts".to_string();
+  jloader.map.insert(jroot.clone(), (Arc::from(jroot_src.into_bytes()), None));
+  let mut jgraph = ModuleGraph::new(GraphKind::All);
+  futures::executor::block_on(jgraph.build(
+    vec![ModuleSpecifier::parse(&jroot).unwrap()],
+    vec![],
+    &jloader,
+    BuildOptions { executor: &exec, module_analyzer: &analyzer, ..Default::default() },
+  ));
+  if std::env::var("C20_DEBUG_JSR").is_ok() {
+    eprintln!("{}", serde_json::to_string_pretty(&jgraph).unwrap());
+  }
+  if jgraph.get(&ModuleSpecifier::parse(&jroot).unwrap()).is_none() {
+    direct.push("harness: root module of the JSR route did not load".to_string());
+  }
+
+  // ---- route 3 (streams other than the base enumeration): the same package, but its files are
+  // in the cache, so the builder parses them at once and the response headers are looked at
+  let with_cached_route = k >= p.n_base;
+  let mut cgraph = ModuleGraph::new(GraphKind::All);
+  if with_cached_route {
+    jloader.jsr_uncached = false;
+    futures::executor::block_on(cgraph.build(
+      vec![ModuleSpecifier::parse(&jroot).unwrap()],
+      vec![],
+      &jloader,
+      BuildOptions { executor: &exec, module_analyzer: &analyzer, ..Default::default() },
+    ));
+    if cgraph.get(&ModuleSpecifier::parse(&jroot).unwrap()).is_none() {
+      direct.push("harness: root module of the cached JSR route did not load".to_string());
+    }
+  }
+
+  // ---- observe the routes
   let mut elems = vec![];
   let mut obs = vec![];
   let mut kinds = [0u64; 3];
@@ -535,9 +630,35 @@ pub fn gen_case(seed: u64, k: u64, tier: Tier) -> Case {
     let url = ModuleSpecifier::parse(&c.spec).unwrap();
     let (mt, cs) = resolve_media_type_and_charset_from_headers(&url, c.headers.as_ref());
     let cs_sx = Sx::opt(cs.map(|l| Sx::atoms(l.chars().map(|ch| ch as u64))));
-    for route in 0..2u64 {
+    for route in 0..(if c.is_file { 2u64 } else if with_cached_route { 4u64 } else { 3u64 }) {
       let what = format!("{} route {}", c.spec, route);
-      let (o, mclass) = if route == 0 {
+      let (o, mclass) = if route == 3 {
+        let file = c.spec.rsplit('/').next().unwrap();
+        let jurl = ModuleSpecifier::parse(&format!("{}{}", JSR_PKG, file)).unwrap();
+        // the package's root imports *.json with `type: "json"` and the rest without (it is shared
+        // with route 2, which goes by the URL); where the header's media type contradicts that the
+        // code answers with a type-assertion / media-type error that is not C20's subject
+        if file.ends_with(".json") != (resolve_media_type_and_charset_from_headers(&jurl, c.headers.as_ref()).0 == MediaType::Json) {
+          continue;
+        }
+        let o = match cgraph.try_get(&jurl) {
+          Ok(Some(m)) => observe_module(m, &mut direct, &what),
+          Ok(None) => Observed { tag: 6, kind: 9, text: vec![], orig: None, size: 0, ssize: 0 },
+          Err(e) => observe_error(e),
+        };
+        let (jmt, _) = resolve_media_type_and_charset_from_headers(&jurl, c.headers.as_ref());
+        (o, media_class(jmt, false))
+      } else if route == 2 {
+        let file = c.spec.rsplit('/').next().unwrap();
+        let jurl = ModuleSpecifier::parse(&format!("{}{}", JSR_PKG, file)).unwrap();
+        let o = match jgraph.try_get(&jurl) {
+          Ok(Some(m)) => observe_module(m, &mut direct, &what),
+          Ok(None) => Observed { tag: 6, kind: 9, text: vec![], orig: None, size: 0, ssize: 0 },
+          Err(e) => observe_error(e),
+        };
+        // the headers of the deferred response are not looked at: media type from the URL
+        (o, media_class(MediaType::from_specifier(&jurl), false))
+      } else if route == 0 {
         let r = futures::executor::block_on(parse_module(ParseModuleOptions {
           graph_kind: GraphKind::All,
           specifier: url.clone(),
@@ -600,12 +721,14 @@ pub fn gen_case(seed: u64, k: u64, tier: Tier) -> Case {
     meta: serde_json::json!({
       "bytes_hex": bytes.iter().map(|b| format!("{:02x}", b)).collect::<Vec<_>>().join(" "),
       "stream": stream,
+      "media": MEDIA[the_media].0,
       "headers": header_tpls,
-      "element_order": "media(ts,js,json) x header(none, then the listed ones with M = media part) x scheme(file,https) x route(parse_module, graph build)",
+      "element_order": "header(none, then the listed ones with M = media part) x scheme(file,https) x route(0 parse_module, 1 graph build, 2 [https only] JSR package with deferred content fill, 3 [https only, not in the base enumeration] JSR package served from the cache)",
     }),
     nontrivial: !bytes.is_empty() && outcomes.len() >= 2,
     dist: vec![
       (format!("stream_{}", stream), 1),
+      (format!("media_{}", MEDIA[the_media].0), 1),
       (format!("len_{:02}", bytes.len().min(40)), 1),
       ("combinations".to_string(), n_elems),
       ("kind_unchanged".to_string(), kinds[0]),
@@ -629,8 +752,8 @@ pub fn run(cfg: &RunCfg) {
     let path = cfg.out_dir.join("stats.json");
     let mut stats: serde_json::Value = serde_json::from_str(&std::fs::read_to_string(&path).unwrap()).unwrap();
     stats["distribution"]["exhaustive"] = serde_json::json!(format!(
-      "all {} byte strings of length <= {} over {:02x?} x 11 header shapes x (file,https) x (ts,js,json) x 2 routes; all {} strings of length <= {} over the extended alphabet {:02x?} x 58 header shapes x same",
-      p.n_base, p.base_len, ALPHA_BASE, p.n_ext, p.ext_len, ALPHA_EXT
+      "all {} byte strings of length <= {} over {:02x?} x 11 header shapes x (file,https) x (ts,js,json) x routes (parse_module, graph build, and for https the JSR deferred content fill); all {} strings of length <= {} over the extended alphabet {:02x?} x (58 header shapes for length <= 1, 28 rotating ones above) x same",
+      p.n_base / 3, p.base_len, ALPHA_BASE, p.n_ext / 3, p.ext_len, ALPHA_EXT
     ));
     std::fs::write(&path, serde_json::to_string_pretty(&stats).unwrap()).unwrap();
   }
